@@ -2030,6 +2030,7 @@ func runC01RecoveryNoWait(c *Ctx, a *pqAnchors) {
 func runC03Round4(c *Ctx) {
 	p := c.P
 	shareRule(c, "C02", runC02, []string{"C02.R10"}, "R12", "GO", "the queue's consumer goroutines neither capture nor test the context that was given to Start (same rule as C02.R10): they keep consuming until the queue is shut down and drained, also when the host ends the start-up context after Start returned", 1)
+	runC03MergedContext(c)
 	c.Rule("R13", "DEP", "the outcome of an export attempt is what the export function returned: the innermost sender's Send returns the result of its consumer function and nothing else – a successful attempt is never turned into an error (which the retry sender would answer with a second export of data that was already delivered)", 1)
 	pk := p.Pkg("exporter/exporterhelper/internal/sender")
 	if pk == nil {
